@@ -97,6 +97,31 @@ Definition check_slate (db : databox FA) (nms : option (list string)) (fr from :
   else if negb (res_eqb databox_eqb (slate_roundtrip FA db nms fr from n o trimmed) back) then 2%nat
   else 0%nat.
 
+(* dataslate as an object: construction, span-changing methods, then the observable state and both conversions.
+   0 = agree; 1 = names / periods / base periods / arrays differ; 2 = to_databox(span="full") differs;
+   3 = to_databox(span="base") differs *)
+Definition ds_obs_eqb (d : dslate FA) (e : list string * list Z * res (list Z) * slate FA) : bool :=
+  let '(nms, ps, bp, arr) := e in
+  list_eqb String.eqb (ds_names FA d) nms && list_eqb Z.eqb (ds_periods FA d) ps
+  && res_eqb (list_eqb Z.eqb) (ds_base_periods FA d) bp && slate_eqb (ds_data FA d) arr.
+
+Definition check_slate_ops (db : databox FA) (nms : option (list string)) (fr from : Z) (n : nat) (o : sopts FA)
+  (mms : Z * Z) (ops : list slop) (trimmed : bool)
+  (st : res (list string * list Z * res (list Z) * slate FA)) (full base : res (databox FA)) : nat :=
+  match dslate_from_databox FA db nms fr from n o mms with
+  | Err e => match st with Err e' => if Nat.eqb e e' then 0%nat else 1%nat | Ok _ => 1%nat end
+  | Ok d0 =>
+      match ds_run FA d0 ops, st with
+      | Err e, Err e' => if Nat.eqb e e' then 0%nat else 1%nat
+      | Ok d, Ok ex =>
+          if negb (ds_obs_eqb d ex) then 1%nat
+          else if negb (res_eqb databox_eqb (ds_to_databox FA d fr false trimmed) full) then 2%nat
+          else if negb (res_eqb databox_eqb (ds_to_databox FA d fr true trimmed) base) then 3%nat
+          else 0%nat
+      | _, _ => 1%nat
+      end
+  end.
+
 (* first step of a history at which the model's result differs; None = agree *)
 Fixpoint first_diff19 {T} (e : T -> T -> bool) (a b : list T) (i : nat) : option nat :=
   match a, b with
